@@ -223,6 +223,16 @@ def run_model(chk, tier):
     for s in stale:
         chk.note("model stale for the iterator: %s (the property-level monitor on real schedules is "
                  "the only oracle)" % s)
+    if pid == "C09":
+        import inductive
+        ok_shape = (not stale and consts["ActionOrder"] == "store_then_wake"
+                    and consts["ConsumerOrder"] == "drain_then_scan")
+        inductive.tlaps_proof(
+            chk, "WakeProof.tla",
+            "Spec => []NoLostWakeup: for any number of delivering threads, deliveries and watched signals, whenever "
+            "the consumer sits in its blocking read and a slot is set, a byte is in the pipe or an action is about to "
+            "write one",
+            applies=ok_shape, why_not="%s %s" % ({k: consts[k] for k in ("ActionOrder", "ConsumerOrder")}, stale))
     if stale:
         return
     for what, cfg, tmo in model_configs(tier):
